@@ -54,6 +54,16 @@ pub fn run(out: &mut Out, seed: u64, tier: &str) {
         for (i, j, o) in &bonds { mat[i * nat + j] = *o; mat[j * nat + i] = *o; }
         for r in 0..reps {
             let mut w = Wrapper::from_atomic_symbols(&refs);
+            // what the molecule holds when the build is asked for: nothing (all atoms at the origin), placeholder coordinates on a
+            // line or on a planar grid (well separated, but no use as a start), or a real geometry — the result must be sane from any
+            let start: Option<Vec<f64>> = match r % 4 {
+                1 => Some((0..nat).flat_map(|i| [i as f64 * *rng.pick(&[1.0, 1.5]), 0.0, 0.0]).collect()),
+                2 => Some((0..nat).flat_map(|i| [(i % 4) as f64 * 1.5, (i / 4) as f64 * 1.5, 0.0]).collect()),
+                3 => Some(m.xs.iter().flat_map(|p| p.to_vec()).collect()),
+                _ => None,
+            };
+            let start_name = ["all atoms at the origin", "placeholder coordinates on a line", "placeholder coordinates on a planar grid", "a real geometry"][r % 4];
+            if let Some(c) = &start { w.set_coordinates(c.clone()); }
             w.set_bond_orders(mat.clone());
             let before = connectivity(w.molecule());
             let atoms_before: Vec<String> = atoms(w.molecule()).iter().map(|a| a.symbol.clone()).collect();
@@ -62,7 +72,7 @@ pub fn run(out: &mut Out, seed: u64, tier: &str) {
             let after = connectivity(w.molecule());
             let atoms_after: Vec<String> = atoms(w.molecule()).iter().map(|a| a.symbol.clone()).collect();
             let bonds_only = |c: &Conn| canon_conn(&Conn { bonds: c.bonds.clone(), ..Default::default() });
-            let replay = format!("build_3d of {} with bonds {}", m.name, bonds_text(&bonds));
+            let replay = format!("build_3d of {} with bonds {} (called with {})", m.name, bonds_text(&bonds), start_name);
             if r == 0 {
                 out.case(&format!("b3d {} {}", nat, bonds_text(&before.bonds)), &canon_conn(&after));
             }
